@@ -20,38 +20,38 @@ func init() {
 	})
 	register(&Property{
 		ID:          "C07",
-		Explanation: "RD: over doCompile's CFG every path performs exactly one fail/complete and no call (direct or deferred, other than (*task).release) can execute after it, so the recover handler can never complete a result twice. RG: the only goroutine of the package installs a deferred recover whose non-nil branch fails the result with a PanicError carrying the value. RF: all waits are ctx-cancellable and Compile defers cancel(). RB: publication by close.",
+		Explanation: "RD: over doCompile's CFG every path performs exactly one fail/complete and no call (direct or deferred, other than (*task).release) can execute after it, so the recover handler can never complete a result twice. RG: the only goroutine of the package installs a deferred recover whose non-nil branch fails the result with a PanicError carrying the value. RF: all waits are ctx-cancellable and Compile defers cancel(). RB: publication by close. RD3: result.res / result.err are written only as part of publishing — nothing (no call, no exit with deferred calls) may come between such a write and close(result.ready). RE summarises acquire/release wrappers of executor.s instead of forbidding them: the flag value an acquire wrapper leaves on its success and failure edges is applied in the caller.",
 		NotDecided:  "goroutine counts after return when a resolver never returns; behaviour of the resolver itself",
 		Rules:       []func(*World){rdCompiler, rd3OutcomeWrittenWithClose, rgCompiler, rfCompiler, rbCompiler, rcCompile, reCompiler, rc11NotFoundFallsThrough},
 	})
 	register(&Property{
 		ID:          "C08",
-		Explanation: "RH1: reporter.Reporter.Error/Warning are invoked (resolved interface callee, whole module) only from (*Handler).HandleError/HandleWarning, on the parent == nil path, with the handler's sync.Mutex held exclusively. RH3: Reporter.Error is dominated by the false branch of h.err != nil and by errsReported = true, and its result is stored in h.err and returned. RH2: warning methods write no Handler field. RA: Handler.err/errsReported under mu. RC5: Compile and task.link return success only after the handler's Error() was consulted.",
+		Explanation: "RH1: reporter.Reporter.Error/Warning are invoked (resolved interface callee, whole module) only from (*Handler).HandleError/HandleWarning, on the parent == nil path, with the handler's sync.Mutex held exclusively. RH3: Reporter.Error is dominated by the false branch of h.err != nil and by errsReported = true, and its result is stored in h.err and returned. RH2: warning methods write no Handler field. RA: Handler.err/errsReported under mu. RC5: Compile and task.link return success only after the handler's Error() was consulted. RH1 root-only is a must-property: h.parent == nil is established on every path to the reporter call.",
 		NotDecided:  "that every detected problem is reported (input-dependent); the truth table of Handler.Error()",
 		Rules:       []func(*World){rhReporter, rcCompile, rcLink},
 	})
 	register(&Property{
 		ID:          "C16",
-		Explanation: "RA guarded-by over linker/symbols.go: every load/store/index/delete of packageSymbols.{children,files,symbols,exts} and Symbols.extDecls is dominated by Lock/RLock of the mutex of the same value (must-hold lock-set dataflow over the CFG; writes need the write lock), or sits in a helper all of whose static call sites hold it (checked per call site, propagated through helpers), or is a constructor access on an unshared object. Every field of the two structs must be in the table or the reviewed exemptions. No blocking operation (channel op, semaphore Acquire, Wait, Sleep) may execute while a table mutex may be held.",
+		Explanation: "RA guarded-by over linker/symbols.go: every load/store/index/delete of packageSymbols.{children,files,symbols,exts} and Symbols.extDecls is dominated by Lock/RLock of the mutex of the same value (must-hold lock-set dataflow over the CFG; writes need the write lock), or sits in a helper all of whose static call sites hold it (checked per call site, propagated through helpers), or is a constructor access on an unshared object. Every field of the two structs must be in the table or the reviewed exemptions. No blocking operation (channel op, semaphore Acquire, Wait, Sleep) may execute while a table mutex may be held. RA4g: the check pass looks every descriptor's name up before reporting 'no problem', because the commit pass stores every name.",
 		NotDecided:  "the 'same collisions as one compile' clause beyond the check-then-commit atomicity of each critical section (history-dependent; see also C17)",
-		Rules:       []func(*World){raSymbols, ra4Symbols, ra4dExtensionRegistration},
+		Rules:       []func(*World){raSymbols, ra4Symbols, ra4dExtensionRegistration, ra4gCheckCoversCommit},
 	})
 	register(&Property{
 		ID:          "C33",
-		Explanation: "RH4: a query body ((*AnyQuery).Execute → AnyQuery.execute → Query.Execute) is invoked only from task.run on the success edge of task.result.CompareAndSwap(nil, r), and task.result changes only by that election CAS or the un-publication CAS (at most one execution per cache entry on any schedule). RH5: entries leave Executor.tasks only with Executor.dirty held exclusively, and Run holds it shared from entry to exit. RC6: both dependency-edge directions are recorded for every query before any dependency starts. RH6: result.runID is stamped only from Task.runID, which is a fresh counter value per Run or inherited; Changed is their equality. RB: result payload is written only by the leader before close(done) and read only after it. RA: timer map under its mutex; shared fields are sync/atomic types.",
-		NotDecided:  "value equality with a fresh computation; that eviction's closure computation visits exactly the transitive callers",
+		Explanation: "RH4: a query body ((*AnyQuery).Execute → AnyQuery.execute → Query.Execute) is invoked only from task.run on the success edge of task.result.CompareAndSwap(nil, r), and task.result changes only by that election CAS or the un-publication CAS (at most one execution per cache entry on any schedule). RH5: entries leave Executor.tasks only with Executor.dirty held exclusively, and Run holds it shared from entry to exit. RC6: both dependency-edge directions are recorded for every query before any dependency starts. RH6: result.runID is stamped only from Task.runID, which is a fresh counter value per Run or inherited; Changed is their equality. RB: result payload is written only by the leader before close(done) and read only after it. RA: timer map under its mutex; shared fields are sync/atomic types. RH5 cleanup-always-runs: on every exit of EvictWithCleanup the cleanup callback has run or is known to be nil.",
+		NotDecided:  "value equality with a fresh computation; that eviction's closure computation visits exactly the transitive callers (RH5 decides where it reads the graph and that it ignores results, not the walk itself)",
 		Rules:       []func(*World){rh4Incremental, rh5Incremental, rh6Incremental, rbIncremental, rcIncremental, raIncremental, rh5cEdgesRemovedOnlyByEviction},
 	})
 	register(&Property{
 		ID:          "C34",
-		Explanation: "RD-inc: typestate of the published pending result over task.run and its deferred leader handler, per exit kind (return output / return nil / panic): every handler path must close output.done; paths that only un-publish or do neither are reported. RE-inc: hold accounting (held/free per Task variable, case-split on the async parameter) over Run, task.run, waitUntilDone and Resolve: every normal exit restores the entry state, acquire/release/transferFrom are never applied in the wrong state, unbalanced exits only follow a failed acquire. RC3: followers check for a cycle before sleeping. RF: every blocking select has a ctx.Done arm and every semaphore Acquire uses the run context. RG: executor goroutines only run done(t.run(…)); Execute runs under a deferred recover that cancels the Run with ErrPanic carrying the value.",
+		Explanation: "RD-inc: typestate of the published pending result over task.run and its deferred leader handler, per exit kind (return output / return nil / panic): every handler path must close output.done; paths that only un-publish or do neither are reported. RE-inc: hold accounting (held/free per Task variable, case-split on the async parameter) over Run, task.run, waitUntilDone and Resolve: every normal exit restores the entry state, acquire/release/transferFrom are never applied in the wrong state, unbalanced exits only follow a failed acquire. RC3: followers check for a cycle before sleeping. RF: every blocking select has a ctx.Done arm and every semaphore Acquire uses the run context. RG: executor goroutines only run done(t.run(…)); Execute runs under a deferred recover that cancels the Run with ErrPanic carrying the value. RG2: every exit of task.run's deferred handler has recovered or is on the aborted edge. RE transfer shape: Task.transferFrom swaps the holding flags on every normal exit.",
 		NotDecided:  "the content of the reported cycle; liveness of user code inside Execute",
-		Rules:       []func(*World){rdIncremental, reIncremental, rcIncremental, rfIncremental, rgIncremental, rc3bExhaustiveCycleSearch},
+		Rules:       []func(*World){rdIncremental, reIncremental, reIncTransferShape, rcIncremental, rfIncremental, rgIncremental, rg2PanicAlwaysRecovered, rc3bExhaustiveCycleSearch},
 	})
 	register(&Property{
 		ID:          "C35",
-		Explanation: "R35: for every query type in experimental/incremental/queries, Key() returns the whole (comparable) query value, or every receiver field Execute reads flows into Key(). RH7: source.Opener.Open is called (outside package source) only from queries.File.Execute, the leaf that edits evict; everything else reaches file contents through Resolve, which records the dependency edge (RC6). RH4: query bodies run only through the executor.",
-		NotDecided:  "equality of outputs across edit histories; purity of the lowering code beyond the receiver/key discipline",
+		Explanation: "R35: for every query type in experimental/incremental/queries, Key() returns the whole (comparable) query value, or every receiver field Execute reads flows into Key(). RH7: source.Opener.Open is called (outside package source) only from queries.File.Execute, the leaf that edits evict; everything else reaches file contents through Resolve, which records the dependency edge (RC6). RH4: query bodies run only through the executor. R35b: Key() may copy, select and compose the query but not pass it through an order-, multiplicity- or case-forgetting function. R35c: no branch on Result.Changed controls a Resolve, a report or a return. R35 non-key-field-read: a field that is not part of the key is never read (the executor keeps the first creator's value).",
+		NotDecided:  "equality of outputs across edit histories; purity of the lowering code beyond the receiver/key/Changed discipline",
 		Rules:       []func(*World){r35Queries, r35bKeyInjective, r35cNoCacheStateDependence, rh7Queries, rh4Incremental, rcIncremental, rh5Incremental, rh5cEdgesRemovedOnlyByEviction},
 	})
 	register(&Property{
@@ -104,15 +104,15 @@ func init() {
 	})
 	register(&Property{
 		ID:          "C17",
-		Explanation: "R17: effect summaries (commits to a guarded map / can fail with a collision, both transitive within linker/symbols.go; closures passed to walk.Descriptors count as loop bodies) are computed for every function in the call tree of (*Symbols).Import; any CFG-ordered pair (commit site, later fallible site) is reported, since a failure after a commit leaves the table changed. RA4b: within one critical section the commit helper is preceded by its conflict check, the handler verdict and the already-imported re-check.",
-		NotDecided:  "that a successful import records exactly the file's symbols",
-		Rules:       []func(*World){r17Import, ra4Symbols, ra4fRollbackOwnsKeys},
+		Explanation: "R17: effect summaries (commits to a guarded map / can fail with a collision, both transitive within linker/symbols.go; closures passed to walk.Descriptors count as loop bodies) are computed for every function in the call tree of (*Symbols).Import; any CFG-ordered pair (commit site, later fallible site) is reported, since a failure after a commit leaves the table changed. RA4b: within one critical section the commit helper is preceded by its conflict check, the handler verdict and the already-imported re-check. RA4f: a roll-back list (deleted from a packageSymbols table by a slice parameter) receives a key only after that key's insertion succeeded.",
+		NotDecided:  "that a successful import records exactly the file's symbols; the full atomicity of a failed import (8 commit-before-fallible orderings are open findings)",
+		Rules:       []func(*World){r17Import, ra4Symbols, ra4fRollbackOwnsKeys, ra4gCheckCoversCommit},
 	})
 	register(&Property{
 		ID:          "C28",
-		Explanation: "RS: the ok flag of experimental/parser.Parse is cleared by a condition which, evaluated over the whole Level domain, is true exactly for {ICE, Error}. RW: each stage entry (lexer.loop, parser.parse, ir.lower) defers Report.CatchICE(false, …) before anything but plain assignments, so panics become ICE diagnostics; the `for !X.Done()` driver loops of the lexer and parser call their progress guard first.",
+		Explanation: "RS: the ok flag of experimental/parser.Parse is cleared by a condition which, evaluated over the whole Level domain, is true exactly for {ICE, Error}. RW: each stage entry (lexer.loop, parser.parse, ir.lower) defers Report.CatchICE(false, …) before anything but plain assignments, so panics become ICE diagnostics; the `for !X.Done()` driver loops of the lexer and parser call their progress guard first. RW6: every Edit bound handed to report.SuggestEdits is relative to the snippet (a constant, a length of the snippet, or X.Start/End - snippet.Start for a span X that was not extended). RW7: every input-driven recursion cycle of the parser's call graph has a depth guard (four open findings today). RV3 gate-on-every-path: lexPrelude answers 'go on' only after the UTF-8 gate.",
 		NotDecided:  "absence of ICEs (RW turns them into diagnostics, it does not exclude them); that diagnostic spans lie inside the file",
-		Rules:       []func(*World){rsParse, rwICE, rv3PreludeEncodingGate, rw5ConstIndexExperimental, rw3RuneErrorWidth, rw4NilParamDeref},
+		Rules:       []func(*World){rsParse, rwICE, rv3PreludeEncodingGate, rw5ConstIndexExperimental, rw3RuneErrorWidth, rw4NilParamDeref, rw6EditsInsideSnippet, rw7RecursionBounded},
 	})
 	register(&Property{
 		ID:          "C29",
@@ -128,7 +128,7 @@ func init() {
 	})
 	register(&Property{
 		ID:          "C39",
-		Explanation: "Three structural clauses of the decimal → binary64 conversion in internal/decimal. RDC1: the power-of-five helper (pow5) is evaluated on its whole finite domain from its own source — for every exponent a case admits, the table indexes are in range and the exact product of the table constants it combines is 5^n. RDC3: for every exponent for which Float64's fast path reaches the helper (path condition evaluated over -400..400, unknown boolean atoms enumerated, predicate methods inlined) the helper performs at most one inexact step (an IEEE multiplication/division by a value other than 1, or a table constant that is not exactly representable), which is the condition under which the fast path is correctly rounded. RDC2: typestate of the exactness flag — no return reports `exact` for a value produced by a rounding-capable step after the flag was last assigned.",
+		Explanation: "Three structural clauses of the decimal → binary64 conversion in internal/decimal. RDC1: the power-of-five helper (pow5) is evaluated on its whole finite domain from its own source — for every exponent a case admits, the table indexes are in range and the exact product of the table constants it combines is 5^n. RDC3: for every exponent for which Float64's fast path reaches the helper (path condition evaluated over -400..400, unknown boolean atoms enumerated, predicate methods inlined) the helper performs at most one inexact step (an IEEE multiplication/division by a value other than 1, or a table constant that is not exactly representable), which is the condition under which the fast path is correctly rounded. RDC2: typestate of the exactness flag — no return reports `exact` for a value produced by a rounding-capable step after the flag was last assigned. RDC4: a constant result (0, ±Inf) decided from a condition on an exponent must be forced by that condition for every (exponent, digit count) of a finite model.",
 		NotDecided:  "correct rounding of the slow path (strconv.ParseFloat is trusted), the bigx arithmetic, the numeral parser, Ldexp underflow into the subnormal range; the rules decide necessary conditions of correct rounding, not the numerical result",
 		Rules:       []func(*World){rdcDecimal},
 	})
@@ -165,7 +165,7 @@ func init() {
 	register(&Property{
 		ID:          "C21",
 		Explanation: "RC7c: an option that fails in lenient/unlinked mode and is kept as uninterpreted leaves no trace in the accumulated options message — either (A) on every acyclic path of interpretOptions through the true edge of interp.lenientErrReported the message passed to interpretField is restored from a proto.Clone snapshot taken before the call (paths with interp.lenient false are pruned there, by RH8), or (B) interpretField/setOptionField never call anything lenience-fallible after modifying msg. RH8: interp.reporter.HandleError* is called only inside the three lenience-aware wrappers, each of which starts with `if lenienceEnabled { lenientErrReported = true; return nil }`; the flags are written only there and in enableLenience. RC7: every proto.Merge into a caller-visible message is preceded on all paths by proto.Reset of the same message (fresh local clones exempt), and in interpreter.interpretOptions no call executes after the caller's options message was first modified (all fallible work happens on the scratch message). RC7d: a removal helper that shifts its argument's backing array obliges every caller to store the result on all paths (none today: RemoveOption copies). RC7e: the shortened uninterpreted-option list is never stored into the options message on a path that can still exit through a lenience-aware error wrapper.",
-		NotDecided:  "equality of values across modes; partial population of the scratch message before a lenient error",
+		NotDecided:  "equality of option values across modes (value-level)",
 		Rules:       []func(*World){rh8Lenience, rc7LenientCommit, rc7cPerOptionAtomicity, rc7dInPlaceRemoval, rc7eCommitAfterChecks},
 	})
 	register(&Property{
@@ -177,7 +177,7 @@ func init() {
 	register(&Property{
 		ID:          "C13",
 		Explanation: "RQ: for every readRune call in a protoLex method, assuming the returned rune is a newline, every path feasible under that assumption (branch conditions over the rune, constants and strings.ContainsRune are evaluated; others explored both ways) passes maybeNewLine(rune) or un-reads the rune (with the size of the same read) or is the read-failed path, before the next readRune or any return: every consumed newline reaches FileInfo's line table. RQ also rejects paths that register a newline and then push the same rune back (registered twice).",
-		NotDecided:  "column arithmetic (tab stops, multi-byte runes) and span ordering",
+		NotDecided:  "the numeric result of the column arithmetic beyond its units (RQ9 decides that columns are never advanced by byte distances) and span ordering",
 		Rules:       []func(*World){rqNewlines, rq9ColumnArithmetic, rq11ReaderPositionOwner},
 	})
 	register(&Property{
